@@ -25,7 +25,7 @@ From CGV Require Import Base.NxGraph Resolve.GraphOps Hydro.SquashDefs Hydro.Hyd
 From CGV Require Hydro.Hydrogens Hydro.Squash.
 From CGV Require Import Compose.GraphAdj Compose.CutModel Compose.CutSkeleton.
 From CGV Require Compose.Statements Compose.TextCut Compose.TextCutExamples Reader.Grammar Resolve.Pipeline Dialect.DriverFaults.
-From CGV Require Compose.AnyCut Compose.TextIso Compose.TextIsoExamples Resolve.PipelineFull Compose.ChainBase Write.PathRound.
+From CGV Require Compose.AnyCut Compose.TextIso Compose.TextIsoExamples Resolve.PipelineFull Compose.ChainBase Write.PathRound Compose.TextDomain.
 Import ListNotations.
 Open Scope Z_scope.
 
@@ -263,6 +263,21 @@ Definition C01_text_level_skeleton_body := CGV.Compose.TextCut.text_level_skelet
 (** non-vacuity: the ethyl acetate string above is the chain A - B - C *)
 Definition C01_chain_text_level_nonvacuous := CGV.Compose.ChainBase.ea_chain_text_level_skeleton.
 
+(** ONE executable test for all hypotheses of the text theorem (Compose/TextDomain.v): when [text_domainb fo C body defs]
+    computes to true the string "{body}.{#n1=t1,...}" is parsed by the driver model and its first resolve() returns the
+    skeleton.  Measured (tools/props/c01.py --text-domain, not part of the check): a Python tokenizer proposes tokens and
+    descriptor decoration for every fragment text of a generated cut string, Coq re-renders them, compares with the written
+    text and evaluates the test ([td_class] = 0): 600 of 600 generated strings of seeds 0 and 1 are inside the theorem. *)
+Theorem C01_text_domain_sound : forall fo C body defs, CGV.Compose.TextDomain.text_domainb fo C body defs = true ->
+  exists st fd m1 fg1 m2 fg2,
+    CGV.Compose.TextCutDefs.from_text fo (CGV.Compose.TextCut.cut_string_of body defs) = Ok st /\ Pipeline.st_dicts st = [fd] /\
+    Pipeline.is_all_atom st = true /\ Pipeline.st_legacy st = true /\ templates_ok C fd /\ is_base C (Pipeline.st_mol st) /\
+    resolve_disconnected fd (CGV.Compose.ComposeFlat.next_meta (Pipeline.st_mol st)) = Ok (m1, fg1) /\
+    bonding_step true true (CGV.Compose.ComposeFlat.next_meta (Pipeline.st_mol st)) m1 fg1 = Ok (m2, fg2) /\
+    skeleton C true m2 /\ adj_nodup m2 /\ wf_graph m2 /\ Squash.squash_atoms m2 = Ok m2.
+Proof. exact CGV.Compose.TextDomain.text_domain_sound. Qed.
+Definition C01_text_domain_class_zero := CGV.Compose.TextDomain.td_class_zero.
+
 Print Assumptions C01_bonding_partial.
 Print Assumptions C01_bonding_step.
 Print Assumptions C01_disjointness_test_sound.
@@ -301,3 +316,5 @@ Print Assumptions C01_chain_is_base.
 Print Assumptions C01_chain_text_level_skeleton.
 Print Assumptions C01_text_level_skeleton_body.
 Print Assumptions C01_chain_text_level_nonvacuous.
+Print Assumptions C01_text_domain_sound.
+Print Assumptions C01_text_domain_class_zero.
